@@ -450,6 +450,15 @@ def resize_array(arr, newshp, offset=None, pad_mode='constant', pad_const=0,
         offset = normalized_scalar_param_list(
             offset, out.ndim, param_conv=safe_int_conv, keep_none=False)
 
+    for i, (off, n_old, n_new) in enumerate(zip(offset, arr.shape,
+                                                out.shape)):
+        # The smaller array must lie completely inside the larger one
+        if n_old != n_new and (off < 0 or
+                               off + min(n_old, n_new) > max(n_old, n_new)):
+            raise ValueError('offset {} in axis {} is out of range for '
+                             'resizing from {} to {} entries'
+                             ''.format(off, i, n_old, n_new))
+
     # Handle padding
     pad_mode, pad_mode_in = str(pad_mode).lower(), pad_mode
     if pad_mode not in _SUPPORTED_RESIZE_PAD_MODES:
